@@ -62,6 +62,13 @@ def body(chk):
                           seed=chk.seed + 900 + rpc, fss=["vtrace"], sels=[("all",), ("slice", 1, 5, 2)], origin="multi", special=False))
     cases.append(dict(level="1.1", images=[("HH", "F1", 5, 2), ("HH", "F2", 5, 2)], rpc=None, seed=chk.seed + 950, fss=["vtrace"],
                       sels=[("all",)], origin="default-options", special=False))
+    # transient faults (a read that fails once with an I/O error, with or without having moved the position): the load may raise or
+    # must be right, and groups already delivered are not requested again
+    for j, (nth, consume) in enumerate([(1, 0.0), (1, 0.5), (2, 0.5), (3, 0.0), (3, 0.5), (4, 1.0)]):
+        for lvl in (("processed", "IU2"), ("signal", "C*8")):
+            cases.append(dict(kind=lvl[0], sample=lvl[1], images=[("HV", "B2", 17, 5)], rpc=3, seed=chk.seed + 800 + j, fss=["vtrace"],
+                              sels=[("all",), ("slice", 2, 14, 1), ("slice", 0, 17, 4), ("list", [1, 8, 16])], origin="transient-fault", special=False,
+                              flaky_load=dict(nth=nth, consume=consume)))
     # size relations: a group of records_per_chunk lines is ONE request however many bytes that is (2^24 .. 2^28 here): line records
     # of ~1 MB, default / exact / small rpc (the arithmetic of the spec is over unbounded integers; this binds it at the sizes where
     # an implementation's request-size assumptions bite)
